@@ -47,8 +47,8 @@ pub fn run(ctx: &Ctx) -> Outcome {
         let fes = family_frontends(cfg, fam, *dir);
         let pre = dirty(lmax);
         for key in keys(seed, cfg.key_len).iter().take(tier.pick(1, 2)) {
-            for (ivn, iv) in iv_variants(seed, bs) {
-                for (dn, data) in data_variants(seed, 0xC03, lmax) {
+            for (ivn, iv) in iv_variants(seed, bs).into_iter().skip(light(cfg, tier)) {
+                for (dn, data) in data_variants(seed, 0xC03, lmax).into_iter().skip(light(cfg, tier)) {
                     for &l in &lens {
                         let m = &data[..l];
                         let (want, want_state) = family_ref(cfg, fam, *dir, key, &iv, m);
